@@ -5,6 +5,14 @@ from ..absint import is_agg, agg_field
 SELF = ('T', ('param', 1))
 
 
+_OFF = {}
+
+
+def OFF():
+    """'.<name>' of the index entry's offset field (by role, see util.index_entry_fields); set in run()"""
+    return '.' + (_OFF.get('name') or '?offset-field-not-found?')
+
+
 def iterator_next(F):
     for imp in F.trait_impls("std::iter::Iterator"):
         if imp["self_ty"].startswith("reader::ShapeIterator"):
@@ -24,6 +32,9 @@ def index_field(F):
 
 def run(ctx):
     F = ctx.facts("default")
+    _OFF['name'] = util.index_entry_fields(F)[0]
+    if not _OFF['name']:
+        ctx.missing("C14.seek", "offset field of the index entry (first big-endian i32 of each parsed entry)")
     ctx.rule("C14.end", "every path of ShapeIterator::next that returns None while an index may be present passes through the "
                         "index iterator being exhausted (the byte-position guard must not end an indexed iteration)", floor=1)
     ctx.rule("C14.seek", "every path from 'index entry obtained' to the record read either carries 2*offset == position counter or "
@@ -104,7 +115,7 @@ def run(ctx):
         reads = [k for k, e in enumerate(p.eff) if (e[0] == 'io' and e[1] in ('read', 'read_exact')) or
                  (e[0] == 'call' and 'read' in e[1])]
         first_read = min(reads) if reads else None
-        eqs = [(t, v) for t, v in p.cons if t[0] == 'bin' and t[1] in ('Ne', 'Eq') and 'offset' in absint.term_str(t)]
+        eqs = [(t, v) for t, v in p.cons if t[0] == 'bin' and t[1] in ('Ne', 'Eq') and OFF() in absint.term_str(t)]
         ok = False
         how = ""
         for t, v in eqs:
@@ -120,8 +131,8 @@ def run(ctx):
             ts = absint.term_str(tgt) if tgt else ''
             k = p.eff.index(e)
             sets = [x for x in p.eff[k:first_read if first_read else None] if x[0] == 'store' and x[1][0] == SELF]
-            counter_ok = any(('offset' in absint.term_str(x[2]) and 'Mul(' in absint.term_str(x[2])) for x in sets)
-            if tgt and 'offset' in ts and 'Mul(' in ts and ', 2)' in ts and (first_read is None or k < first_read) and counter_ok:
+            counter_ok = any((OFF() in absint.term_str(x[2]) and 'Mul(' in absint.term_str(x[2])) for x in sets)
+            if tgt and OFF() in ts and 'Mul(' in ts and ', 2)' in ts and (first_read is None or k < first_read) and counter_ok:
                 ok = True
                 how = "seeks to Start(%s) before reading and sets the counter" % ts[:60]
             else:
@@ -145,7 +156,7 @@ def run(ctx):
             if e[1] == 'seek' and is_agg(e[4], 'std::io::SeekFrom', 'Start'):
                 ts = absint.term_str(agg_field(e[4], '0'))
                 desc.append(ts[:80])
-                if 'offset' in ts and 'Mul(' in ts and ', 2)' in ts and 'arg2' in ts:
+                if OFF() in ts and 'Mul(' in ts and ', 2)' in ts and 'arg2' in ts:
                     good = True
     ctx.ob("C14.random", "ShapeReader::seek", good, "seeks to %s" % desc, site=ctx.site_of(F, fs[0]["def"]), key="C14.random|seek")
 
